@@ -7,7 +7,8 @@ package driver
 //
 //	<id> <up0> <tok> ...
 //
-// tokens (same as oracle/c15): DR DS DB DH DC DE  dial outcomes (refused, accepted+silent, bad
+// tokens (same as oracle/c15): DR DS DZ DB DH DC DE  dial outcomes (refused, accepted+silent [DZ: silent
+// until the device's 60 s read timeout], bad
 // handshake, handshake then dropped, closed normally by the device, established and staying)
 // X drop the established connection; T/t Stop (live / finished context); U<n>/u<n> UpdateAddr to
 // address n (live / finished context); F/G SDK update fails / works; Q/q TrySend(GetReaderConfig)
@@ -282,18 +283,18 @@ func (s *c15SDK) UpdateDeviceOperatingState(name string, st models.OperatingStat
 // logger: silent; Error calls are counted, only to pace the script (never judged)
 type c15Logger struct{ errs *atomic.Int64 }
 
-func (l c15Logger) SetLogLevel(string) edgexErr.EdgeX   { return nil }
-func (l c15Logger) LogLevel() string                    { return "ERROR" }
-func (l c15Logger) Debug(string, ...interface{})        {}
-func (l c15Logger) Error(string, ...interface{})        { l.errs.Add(1) }
-func (l c15Logger) Info(string, ...interface{})         {}
-func (l c15Logger) Trace(string, ...interface{})        {}
-func (l c15Logger) Warn(string, ...interface{})         {}
-func (l c15Logger) Debugf(string, ...interface{})       {}
-func (l c15Logger) Errorf(string, ...interface{})       { l.errs.Add(1) }
-func (l c15Logger) Infof(string, ...interface{})        {}
-func (l c15Logger) Tracef(string, ...interface{})       {}
-func (l c15Logger) Warnf(string, ...interface{})        {}
+func (l c15Logger) SetLogLevel(string) edgexErr.EdgeX { return nil }
+func (l c15Logger) LogLevel() string                  { return "ERROR" }
+func (l c15Logger) Debug(string, ...interface{})      {}
+func (l c15Logger) Error(string, ...interface{})      { l.errs.Add(1) }
+func (l c15Logger) Info(string, ...interface{})       {}
+func (l c15Logger) Trace(string, ...interface{})      {}
+func (l c15Logger) Warn(string, ...interface{})       {}
+func (l c15Logger) Debugf(string, ...interface{})     {}
+func (l c15Logger) Errorf(string, ...interface{})     { l.errs.Add(1) }
+func (l c15Logger) Infof(string, ...interface{})      {}
+func (l c15Logger) Tracef(string, ...interface{})     {}
+func (l c15Logger) Warnf(string, ...interface{})      {}
 
 // request whose marshalling is counted: Client.SendFor marshals once per call
 type c15Probe struct{ n atomic.Int64 }
@@ -339,6 +340,14 @@ func (r *c15Run) serve(cn *c15Conn, wantSRC int) {
 		time.Sleep(15 * time.Millisecond)
 		r.logf("fail")
 		c.Close()
+		signal("dropped")
+		return
+	case 'Z':
+		// really silent: say nothing until the device gives up (its read timeout,
+		// keepAliveInterval*maxMissedKAs = 60 s)
+		r.logf("fail")
+		c.SetReadDeadline(time.Now().Add(100 * time.Second))
+		io.Copy(io.Discard, c)
 		signal("dropped")
 		return
 	case 'B':
@@ -610,7 +619,8 @@ func c15RunScript(id string, up0 bool, toks []string) string {
 			var what string
 			select {
 			case what = <-cn.stepDone:
-			case <-time.After(map[bool]time.Duration{false: 6 * time.Second, true: 1500 * time.Millisecond}[want == 2 && tok[1] == 'E']):
+			case <-time.After(map[bool]time.Duration{false: map[bool]time.Duration{false: 6 * time.Second, true: 110 * time.Second}[tok[1] == 'Z'],
+				true: 1500 * time.Millisecond}[want == 2 && tok[1] == 'E']):
 				what = "timeout"
 				if !(want == 2 && tok[1] == 'E') {
 					r.logf("!steptimeout")
